@@ -181,3 +181,115 @@ def gen_elemstack_consts():
         out += lean_list(nm, v[:-1]) + "\n"
     out += "end XV.Gen.ElemStackConsts\n"
     return out
+
+
+# ---- C09 (builder) ----
+
+
+# ------------------------------------------------------------------ C09: codec tables (HexBin, Base64)
+def unidefs():
+    """name -> value of every `const XMLCh chXxx = 0x..;` in util/XMLUniDefs.hpp"""
+    t = strip_c_comments(src("util/XMLUniDefs.hpp"))
+    syms = {}
+    for m in re.finditer(r"const\s+XMLCh\s+(ch\w+)\s*=\s*(0x[0-9A-Fa-f]+|\d+)\s*;", t):
+        syms[m.group(1)] = int(m.group(2), 0)
+    if len(syms) < 100:
+        raise TranslateError("XMLUniDefs.hpp: only %d ch* constants found" % len(syms))
+    return syms
+
+
+def static_int(text, name, rel):
+    t = strip_c_comments(text)
+    m = re.search(r"\b%s\s*=\s*([^;]+);" % re.escape(name), t)
+    if not m:
+        raise TranslateError("constant %s not found in %s" % (name, rel))
+    return m.group(1).strip()
+
+
+@translate.register("Codec")
+def gen_codec():
+    syms = unidefs()
+    out = HEADER + "namespace XV.Gen.Codec\n\n"
+    # --- HexBin.cpp: static table, static initialiser
+    rel = "util/HexBin.cpp"
+    t = src(rel)
+    base_h = c_int(static_int(t, "BASELENGTH", rel))
+    hexnum = array_init(t, "hexNumberTable", rel, syms)
+    if len(hexnum) != base_h:
+        raise TranslateError("hexNumberTable: %d entries, BASELENGTH %d" % (len(hexnum), base_h))
+    out += "def hexBaseLength : Nat := %d\n" % base_h
+    out += lean_list("hexNumberTable", hexnum) + "\n"
+    # the code that uses the table: shapes the model depends on
+    tt = strip_c_comments(t)
+    for pat, what in ((r"strLen\s*%\s*2\s*!=\s*0", "odd length test"),
+                      (r"octet\s*>=\s*BASELENGTH", "isHex bound check"),
+                      (r"\(\s*temp1\s*<<\s*4\s*\)\s*\|\s*temp2", "nibble composition"),
+                      (r"upperCaseASCII", "canonical form = upper case")):
+        if not re.search(pat, tt):
+            raise TranslateError("HexBin.cpp: %s no longer present (%s)" % (what, pat))
+    # --- Base64.cpp
+    rel = "util/Base64.cpp"
+    t = src(rel)
+    tt = strip_c_comments(t)
+    base_b = c_int(static_int(t, "BASELENGTH", rel))
+    four = c_int(static_int(t, "FOURBYTE", rel))
+    alpha = array_init(t, "base64Alphabet", rel, syms)
+    inv = array_init(t, "base64Inverse", rel, syms)
+    if len(inv) != base_b:
+        raise TranslateError("base64Inverse: %d entries, BASELENGTH %d" % (len(inv), base_b))
+    pad = static_int(t, "Base64::base64Padding", rel)
+    if pad not in syms:
+        raise TranslateError("base64Padding initialiser %r is not a ch* constant" % pad)
+    quads = c_int(static_int(t, "Base64::quadsPerLine", rel))
+    out += "def b64BaseLength : Nat := %d\n" % base_b
+    out += "def fourByte : Nat := %d\n" % four
+    out += lean_list("base64Alphabet", alpha) + "\n"
+    out += lean_list("base64Inverse", inv) + "\n"
+    out += "def base64Padding : Nat := %d\n" % syms[pad]
+    out += "def quadsPerLine : Nat := %d\n" % quads
+    out += "def chLF : Nat := %d\n" % syms["chLF"]
+    out += "def chSpace : Nat := %d\n\n" % syms["chSpace"]
+    # inline helpers from Base64.hpp: the shifts and masks
+    h = strip_c_comments(src("util/Base64.hpp"))
+    def grab(rx, what):
+        m = re.search(rx, h, flags=re.S)
+        if not m:
+            raise TranslateError("Base64.hpp: %s not recognised" % what)
+        return [c_int(g) for g in m.groups()]
+    s1 = grab(r"set1stOctet\([^)]*\)\s*\{\s*return\s*\(\(\s*b1\s*<<\s*(\d+)\s*\)\s*\|\s*\(\s*b2\s*>>\s*(\d+)\s*\)\)", "set1stOctet")
+    s2 = grab(r"set2ndOctet\([^)]*\)\s*\{\s*return\s*\(\(\s*b2\s*<<\s*(\d+)\s*\)\s*\|\s*\(\s*b3\s*>>\s*(\d+)\s*\)\)", "set2ndOctet")
+    s3 = grab(r"set3rdOctet\([^)]*\)\s*\{\s*return\s*\(\(\s*b3\s*<<\s*(\d+)\s*\)\s*\|\s*b4\s*\)", "set3rdOctet")
+    p1 = grab(r"split1stOctet\([^)]*\)\s*\{\s*b1\s*=\s*ch\s*>>\s*(\d+)\s*;\s*b2\s*=\s*\(\s*ch\s*&\s*(0x[0-9a-fA-F]+)\s*\)\s*<<\s*(\d+)\s*;", "split1stOctet")
+    p2 = grab(r"split2ndOctet\([^)]*\)\s*\{\s*b2\s*\|=\s*ch\s*>>\s*(\d+)\s*;\s*b3\s*=\s*\(\s*ch\s*&\s*(0x[0-9a-fA-F]+)\s*\)\s*<<\s*(\d+)\s*;", "split2ndOctet")
+    p3 = grab(r"split3rdOctet\([^)]*\)\s*\{\s*b3\s*\|=\s*ch\s*>>\s*(\d+)\s*;\s*b4\s*=\s*\(\s*ch\s*&\s*(0x[0-9a-fA-F]+)\s*\)\s*;", "split3rdOctet")
+    out += lean_list("set1st", s1) + lean_list("set2nd", s2) + lean_list("set3rd", s3)
+    out += lean_list("split1st", p1) + lean_list("split2nd", p2) + lean_list("split3rd", p3) + "\n"
+    # final-quartet padding masks in decode()
+    m1 = re.search(r"\(\s*b2\s*&\s*(0x[0-9a-fA-F]+)\s*\)\s*!=\s*0", tt)
+    m2 = re.search(r"\(\s*b3\s*&\s*(0x[0-9a-fA-F]+)\s*\)\s*!=\s*0", tt)
+    if not (m1 and m2):
+        raise TranslateError("Base64::decode: padding-bit checks (b2 & 0xf, b3 & 0x3) no longer present")
+    out += "def pad2Mask : Nat := %d\ndef pad1Mask : Nat := %d\n" % (c_int(m1.group(1)), c_int(m2.group(1)))
+    for pat, what in ((r"rawInputLength\s*%\s*FOURBYTE\s*\)\s*!=\s*0", "length multiple of four"),
+                      (r"chSpace\s*==\s*inputData\[inputIndex\]", "schema mode: no leading space"),
+                      (r"if\s*\(\s*inWhiteSpace\s*\)\s*return\s+0", "schema mode: no double / trailing space"),
+                      (r"isPad\(\s*d3\s*\)\s*&&\s*isPad\(\s*d4\s*\)", "two-pad branch"),
+                      (r"!isPad\(\s*d3\s*\)\s*&&\s*isPad\(\s*d4\s*\)", "one-pad branch"),
+                      (r"quad\s*%\s*quadsPerLine\s*\)\s*==\s*0", "line break every quadsPerLine quartets")):
+        if not re.search(pat, tt):
+            raise TranslateError("Base64.cpp: %s no longer present (%s)" % (what, pat))
+    # boolean value space (XMLUni.cpp)
+    u = src("util/XMLUni.cpp")
+    m = re.search(r"fgBooleanValueSpace\s*\[\s*\]\s*\[\s*\d+\s*\]\s*=\s*\{(.*?)\}\s*;", strip_c_comments(u), flags=re.S)
+    if not m:
+        raise TranslateError("XMLUni.cpp: fgBooleanValueSpace not found")
+    rows = re.findall(r"\{([^{}]*)\}", m.group(1))
+    vals = []
+    for r in rows:
+        v = [syms[x.strip()] if x.strip() in syms else c_int(x) for x in r.split(",") if x.strip()]
+        if not v or v[-1] != 0:
+            raise TranslateError("fgBooleanValueSpace row not NUL-terminated: %r" % r)
+        vals.append(v[:-1])
+    out += "def booleanValueSpace : List (List Nat) := [%s]\n\n" % ", ".join("[" + ", ".join(map(str, v)) + "]" for v in vals)
+    out += "end XV.Gen.Codec\n"
+    return out
